@@ -185,12 +185,55 @@ def shard_systematic(kind, lo, hi, tier):
     return res
 
 
+CASE_PROGRAMS = ['%s a0, 0x12345678\nj end\nnop\nend: nop\n', 'start: nop\n%s a1, 2048\nbeqz a1, end\naddi a1, a1, 1\nend: ret\n',
+                 'f: ret\n%s f\nj end\nnop\nend: nop\n', '%s end\nnop\nj end\nnop\nend: nop\n', '%s t0, end\nnop\nend: nop\n',
+                 '%s a0, a1\n%s a2, end\nend: nop\n']
+CASE_NAMES = {0: ['li'], 1: ['li'], 2: ['call', 'tail'], 3: ['call', 'tail', 'j', 'jal'], 4: ['la', 'jal'], 5: ['mv', 'not', 'neg', 'seqz']}
+
+
+def _case_pair(a, lower, spelled, comp):
+    got = []
+    for src in (lower, spelled):
+        labels = {}
+        try:
+            got.append(('ok', bytes(a.assemble(src, compress=comp, labels=labels)), dict(labels)))
+        except Exception as e:
+            got.append(('refused', type(e).__name__, str(e)[-120:]))
+    return got
+
+
+def case_job(tier):
+    """Mnemonics are case-insensitive: a pseudo-instruction written in upper or mixed case has the effect of the lower-case
+    spelling - same bytes and label table (its size in the first layout included), both compression modes."""
+    a = _prog.get_asm()
+    res = env.Result()
+    for k, tpl in enumerate(CASE_PROGRAMS):
+        for name in CASE_NAMES[k]:
+            n = tpl.count('%s')
+            second = ('la',) if n == 2 else ()
+            lower = tpl % ((name,) + second)
+            if _case_pair(a, lower, lower, False)[0][0] != 'ok':
+                res.count('case_program_out_of_scope')
+                continue
+            for style in (str.upper, str.capitalize, str.swapcase):
+                for comp in (False, True):
+                    spelled = tpl % ((style(name),) + tuple(style(x) for x in second))
+                    res.evaluations += 1
+                    res.nontrivial_count += 1
+                    x, y = _case_pair(a, lower, spelled, comp)
+                    if x != y:
+                        res.fail('case:%s' % name, '%r (compress=%s) gives %r, the lower-case spelling %r' % (spelled, comp, y[:2], x[:2]),
+                                 {'kind': 'case', 'lower': lower, 'spelled': spelled, 'compress': comp})
+    res.sample({'case_programs': len(CASE_PROGRAMS), 'example': CASE_PROGRAMS[0] % 'LI'})
+    return res
+
+
 def run(tier):
     chk = env.Check(PROP, tier)
     chk.rule = ('(1) systematic: all 27 pseudo-instructions x every register for rd (x rs sample; all pairs in '
                 'thorough) and li over low-13-bits-complete x %d upper parts, both spellings, call/tail at each of the call distance classes '
                 '(0 .. 1 MiB + 8 KiB) +-8 bytes forwards and backwards (must be accepted and land), both compression modes; '
-                '(2) Hypothesis IR programs (profile pseudo: pseudo-instructions among compressible code, targets at '
+                '(1b) li/call/tail/j/jal/la/mv/not/neg/seqz in upper, capitalised and swapped case in 6 small programs with a label behind them == the lower-case spelling (bytes, labels); (2) Hypothesis IR programs (profile pseudo: pseudo-instructions among compressible code, targets at '
                 'all distance classes). Each expansion is executed by rvref.step from 14 register files and compared '
                 'with the documented function (registers, next pc, link, scratch, events). non-trivial = pseudo with '
                 'rd != x0 or a control transfer (systematic: counted per instance, all distinct by construction; '
@@ -203,6 +246,7 @@ def run(tier):
     jobs += [('preset', i, i + 1, tier) for i in range(4)]
     progcheck.run_sharded(chk, PROP, PROFILE, N[tier], 'judge', __name__)     # (first, so that its samples are kept)
     chk.merge(env.run_shards(shard_systematic, jobs))
+    chk.merge(env.run_shards(case_job, [(tier,)]))
     _prog.check_vacuity(chk)
     chk.assumptions = ['rvref.step is the execution semantics', 'documented effect table transcribed from docs/instruction_reference.rst']
     return chk.finish()
@@ -212,6 +256,13 @@ def replay(path):
     with open(path) as f:
         body = json.load(f)
     c = body['case']
+    if c.get('kind') == 'case':
+        x, y = _case_pair(_prog.get_asm(), c['lower'], c['spelled'], c['compress'])
+        if x != y:
+            print('VIOLATION property=%s replay=%s' % (PROP, path))
+            return env.EXIT_VIOLATION
+        print('replay holds: %s' % path)
+        return env.EXIT_OK
     if c.get('kind') == 'preset':
         r = env.Result()
         a = _prog.get_asm()
